@@ -1,6 +1,7 @@
 import Gopki.Model.Rdn
 import Gopki.Model.Db
 import Gopki.Props.C01
+import Gopki.Lemmas.CertRound
 /-! # C03 — subject DN, serial number and unique ids are exactly what the config says
 
 `Rdn.parse_render` (in `Gopki.Model.Rdn`): every subject of the documented grammar — one or more
@@ -51,5 +52,17 @@ theorem C03_sign_keeps_fields (ctx : Context) (iss : IssuerContext) (alg : Nat) 
     operation, which snapshots the caller's subject before and after the call) -/
 theorem C03_validate_is_pure (p : V1.CertificateProfile) (c : V1.CertificateContent) :
     Db.validateSubject p c = Db.validateSubject p { c with alias_ := c.alias_ } := rfl
+
+/-- **subject, serial number and unique ids in the encoded certificate are the body's**, for all inputs: the RFC 5280
+    reader returns from the model's DER exactly the attribute list (types and values, in order), the serial number and
+    the unique-id bit strings of the body that was encoded.  With `C03_body_fields` / `C03_sign_keeps_fields` (the
+    body carries the configuration's values) and `Rdn.parse_render` (the subject string parses to its pairs) this is
+    the statement of C03 at the level of bytes. -/
+theorem C03_fields_reach_the_der (t : Gen.Tbs) (v : Der.Tlv) (h : Gen.tbsTlv t = .ok v) (ht : CertWf.TbsOk t) :
+    ∃ r, X509.decTbs v = some r ∧ X509.decName r.subject = some t.subject ∧ X509.decInt r.serialContent = some t.serial ∧
+      r.issuerUid = t.issuerUid.map (fun b => Asn1.bitStringContent b.bytes b.bitLength) ∧
+      r.subjectUid = t.subjectUid.map (fun b => Asn1.bitStringContent b.bytes b.bitLength) := by
+  obtain ⟨r, _, _, hr, _, hf⟩ := CertRound.decTbs_tbsTlv t v h ht
+  exact ⟨r, hr, hf.subject, hf.serial.2, hf.issuerUid, hf.subjectUid⟩
 
 end C03
